@@ -144,4 +144,29 @@ CONTRACTS = [
         modifies=[],
         at_calls=False,
     ),
+    Contract(
+        SQ + "_get_target_table",
+        props=["C06", "C02"],
+        returns="Optional[Union[SubQuery, Table]]",
+        ensures={
+            "a_relation_that_is_written_and_not_read": f"implies(result is not None, gnode({G}, result) and gtag({G}, result, 'write') is True and not (gtag({G}, result, 'read') is True))",
+            # the converse (None only if every written relation is also read) holds but stays `unknown` in z3 on the statement-holder
+            # path (nested set comprehensions of the overriding read / write): not claimed
+        },
+        raises={"*": {"when": None}},
+        modifies=[],
+        at_calls=False,
+    ),
+    Contract(
+        SQ + "get_source_columns",
+        props=["C06", "C02"],
+        params={"node": "Column"},
+        returns="list[Column]",
+        ensures={
+            "exactly_the_columns_with_a_direct_lineage_edge_into_the_node": f"forall(lambda c: (c in result) == (gedge({G}, c, node) and getype({G}, c, node) == 'lineage' and isinstance(c, Column)))",
+        },
+        raises={"*": {"when": None}},
+        modifies=[],
+        at_calls=False,
+    ),
 ]
